@@ -61,7 +61,29 @@ def candidate_wids(seed: int, prop: str):
             yield w
             if prop in SUB_PROPS:
                 yield w + "#s1"
-    for n, i in enumerate(gens):
+    # extension family genx (several start events, loops inside break
+    # branches): C05 names such jobs in its quantifier; C07 explores it too
+    if prop in ("C05", "C07"):
+        gx = list(range(grid.N_GENX))
+        r.shuffle(gx)
+        gens = [("genx", i) for i in gx[: len(gx) // 3]] + [
+            ("gen", i) for i in gens]
+        rest = [("genx", i) for i in gx[len(gx) // 3:]]
+        r.shuffle(gens)
+        gens += rest
+    else:
+        gens = [("gen", i) for i in gens]
+    for n, (fam, i) in enumerate(gens):
+        if fam == "genx":
+            d = gen_defs.genx_def(i)
+            if gen_defs.excluded_by(d) and prop != "C07":
+                continue
+            if prop == "C07" and puml_sem.count_kind(d, ("loop",)) == 0:
+                continue
+            yield f"genx:{i}"
+            if n % 2 == 0:
+                yield f"genx:{i}#s1"
+            continue
         d = gen_defs.gen_def(i)
         # R1-R3 exclude classes on which the pinned tree violates C01/C02/
         # C05; loop extraction (C07) holds on them, so C07 explores them too
